@@ -12,6 +12,8 @@ for d in sorted(glob.glob('/verif/seeded/' + pat)):
     name = os.path.basename(d)
     own = name[:3]
     det, first = m.get('detection', {}), m.get('detection_round1') or m.get('detection', {})
+    det = {c: v for c, v in det.items() if isinstance(v, dict)}
+    first = {c: v for c, v in first.items() if isinstance(v, dict)}
     if not m.get('confirmed'):
         print("| %s | not confirmed (%s) | dropped | - | - |" % (name, "breaks pinned tests" if m.get('new_failing_tests') else "demo"))
         continue
@@ -24,6 +26,9 @@ for d in sorted(glob.glob('/verif/seeded/' + pat)):
         return "missed" + (" (caught by %s)" % " ".join(others) if others else "")
     caught = [c for c, v in det.items() if v.get('exit') == 1]
     caught.sort(key=lambda c: (c != own, c))
+    if m.get('demo_on_head_rc') == 0:
+        print("| %s | %s | neutralised | - | %s |" % (name, st(first) if first else "not run", "no longer breaks the property on the current /repo HEAD (a later fix: commit removed the precondition)"))
+        continue
     what = (m.get('needs_to_manifest') or '').strip().splitlines()
     what = [l for l in what if l.strip() and not l.startswith('```')]
     w = re.sub(r'[|]', '/', what[0].lstrip('# ').strip())[:150] if what else ''
